@@ -56,7 +56,7 @@ example (f : Int → M Int) :
     ⟨fun h => absurd h (by decide), fun h => absurd h (by decide), by decide⟩ (by decide +kernel) l c o po h
 
 /-- **the consistency the recovery theorems assume is an invariant**: start from any seekable handle without stream state (freshly
-    opened, or left behind by ANY failed seek), issue any sequence of reads, sample seeks, page seeks and raw seeks, plain or lapped: every state reached
+    opened, or left behind by ANY failed seek), issue any sequence of reads, sample seeks, page seeks, raw seeks and time seeks, plain or lapped: every state reached
     is consistent (`DecWF`) and still describes the same file (`SameFile`: link table, infos, flags, data source, close count untouched) -/
 theorem C12_consistency_is_invariant (ph : Phys) (s t : VF) (hk : s.seekable = true) (hr : s.ready = OPENED)
     (h : Proofs.FileInv.Reach ph s t) : DecWF t ∧ SameFile s t ∧ OPENED ≤ t.ready := by
@@ -64,7 +64,7 @@ theorem C12_consistency_is_invariant (ph : Phys) (s t : VF) (hk : s.seekable = t
   exact ⟨this.1.2.1, this.2, this.1.2.2⟩
 
 /-- **recovery for all histories**: two handles on the same file — one that went through any failing seek, one that did not — are
-    each taken through ANY sequence of reads, sample seeks, page seeks and raw seeks, plain or lapped (different ones); a sample seek to the same target
+    each taken through ANY sequence of reads, sample seeks, page seeks, raw seeks and time seeks, plain or lapped (different ones); a sample seek to the same target
     then leaves both in the identical state with the same return value (whenever that seek's page search lands) -/
 theorem C12_recovery_for_all_histories (ph : Phys) (a0 b0 a b : VF) (h0 : SameFile a0 b0)
     (ka : a0.seekable = true) (ra0 : a0.ready = OPENED) (rb0 : b0.ready = OPENED)
